@@ -1,7 +1,10 @@
 """XML front end (wbxml_tree_clb_xml.c + the XML half of wbxml_tree.c): correspondence of coq/Model/XmlFront.v with the C.
 
     correspond(seed, quick) -> dict(evaluations, disagreements, samples, distribution, ...)
-    python3 -m vlib.xmlfront [--thorough] [--seed N]      prints the disagreements, exits non-zero if there is any
+    python3 -m vlib.xmlfront [--thorough] [--seed N] [--strict-codes] [--hex DOC]
+                                                          prints the disagreements, exits non-zero if there is any
+                                                          (--strict-codes: an error-code-only difference counts too;
+                                                           used for mutation analysis, 0 on the unchanged tree)
 
 Per document the harness (harness/xmlfront_harness.c) logs the events of a fresh Expat parser configured as
 wbxml_tree_from_xml configures it, then calls the real wbxml_tree_from_xml and dumps the tree (or the error code); the
@@ -158,6 +161,12 @@ def binary_docs(rng, quick):
         for depth in (997, 998, 999):
             out.append(("binary-deep", b'<?xml version="1.0"?>' + ACTIVESYNC + b"<Sync xmlns='AirSync:'>" + b"<Add>" * depth + b"<ConversationId xmlns='Email2:'>" + payload +
                         b"<x>t</x>more</ConversationId>" + b"</Add>" * depth + b"</Sync>"))
+    # an error (nesting limit) while `current` is an element below a binary element with cached text; a CDATA section
+    # follows: if the CDATA callbacks did not return at once after the error, `current` would move up to the binary
+    # element and the next end tag would decode its cache (only the error CODE can show this)
+    for payload in (b"YWJj", b"!!!!"):
+        out.append(("binary-deep", b'<?xml version="1.0"?>' + ACTIVESYNC + b"<Sync xmlns='AirSync:'>" + b"<Add>" * 997 + b"<ConversationId xmlns='Email2:'>" + payload +
+                    b"<e><y>t</y><![CDATA[z]]>u</e>more</ConversationId>" + b"</Add>" * 997 + b"</Sync>"))
     return out
 
 
@@ -230,6 +239,8 @@ def prolog_docs(tj, rng, quick):
     for d in DECLS:
         out.append(("prolog", d + convcases.WML_DOCTYPE[21:] + b"<wml><card><p>x</p></card></wml>"))
     out.append(("prolog", b"<unknownroot/>"))
+    # text after the language error: a characters callback that went on would make a text node the root and fail on the next one
+    out.append(("prolog", b"<unknownroot>a&amp;b<![CDATA[c]]>d</unknownroot>"))
     out.append(("prolog", b"<a:b xmlns:a='urn:none'/>"))
     out.append(("prolog", b"<wml/>"))
     out.append(("prolog", b"<?pi before?><!-- c --><wml><?pi in?></wml><?pi after?>\n"))
@@ -367,7 +378,7 @@ def features(ev, t):
     return f
 
 
-def correspond(seed=1, quick=True, extra_cases=None, only_extra=False):
+def correspond(seed=1, quick=True, extra_cases=None, only_extra=False, strict_codes=False):
     H = common.build_harness("xmlfront_harness")
     D = common.build_driver("XmlFront")
     cs = [] if only_extra else cases(seed, quick)
@@ -471,7 +482,9 @@ def correspond(seed=1, quick=True, extra_cases=None, only_extra=False):
                 continue
             if t.startswith("T ERR") and m.startswith("T ERR") and "!" not in t:
                 soft.append({"kind": k, "doc_hex": hexes[i][:4000], "c": t, "model": m})
-                continue
+                if not strict_codes:
+                    continue
+                k = "code:" + k
             disagreements.append({"kind": k, "doc_hex": hexes[i], "doc": d[:600].decode("latin-1"), "c": t[:1500], "model": m[:1500],
                                   "expat_status": st, "events": ev[:1500]})
         # nested documents become cases of the next round
@@ -499,7 +512,7 @@ def main(argv):
     extra = []
     if "--hex" in argv:
         extra = [("cli", bytes.fromhex(argv[argv.index("--hex") + 1]))]
-    r = correspond(seed, quick, extra_cases=extra, only_extra=bool(extra))
+    r = correspond(seed, quick, extra_cases=extra, only_extra=bool(extra), strict_codes="--strict-codes" in argv)
     for d in r["disagreements"][:40]:
         print("DISAGREEMENT kind=%s\n  doc   = %s\n  hex   = %s\n  C     = %s\n  model = %s%s" % (
             d["kind"], d.get("doc", "")[:300].replace("\n", "\\n"), d["doc_hex"][:600], d["c"][:600], d["model"][:600],
